@@ -456,8 +456,31 @@ func c02MultiLine(c *core.Ctx) {
 	}
 }
 
+// c02Scale: the scale family (long chains, deep nesting, many items) against the reference parser.
+func c02Scale(c *core.Ctx) {
+	for i, sp := range gen.Scale(c.Thorough()) {
+		if !c.Mine(int64(i)) || c.Tick() {
+			continue
+		}
+		c.Cur(sp.Name)
+		c.Inc("reference_parses")
+		out, kd, d := c02Check(sp.Src)
+		if out {
+			c.Inc("stmt_texts_outside_domain")
+			continue
+		}
+		c.Inc("programs")
+		c.Inc("scale_programs")
+		if kd != "" && c.ShrinkOK(kd) {
+			pl, _ := json.Marshal(c02Payload{sp.Src})
+			c.Violate(core.Violation{Kind: kd, Config: "scale", Case: sp.Name, Detail: core.Short(d, 600), Payload: pl, Size: 1000 + len(sp.Src)})
+		}
+	}
+}
+
 func c02Stmts(c *core.Ctx) {
 	c02MultiLine(c)
+	c02Scale(c)
 	level, k := 1, 1
 	gaps := gen.GapAlts
 	if c.Thorough() {
